@@ -201,6 +201,10 @@ fn build_pass(spec: &DumpSpec, exc_ctx: (u32, u32)) -> Vec<u8> {
 
 // ---- dump descriptions of spec/Processor.tla cases (shared by the C14 replay and the report / determinism recorders) ----
 pub const EXC_IP: u64 = 0x400900;
+/// return addresses planted in every thread stack and in a region of the memory list that is no thread's stack
+pub const RA_THREAD: u64 = 0x400300;
+pub const RA_OTHER: u64 = 0x400200;
+pub const OTHER_REGION: u64 = 0x20000;
 pub fn thread_ip(spot: &str, k: usize) -> u64 {
     match spot { "mod" => 0x400100 + k as u64, "unl" => 0x600100 + k as u64, "unl2" => 0x600900 + k as u64, _ => 0x700000 + k as u64 }
 }
@@ -212,7 +216,7 @@ pub fn from_processor_case(c: &serde_json::Value) -> DumpSpec {
         for (k, t) in c["threads"].as_array().unwrap().iter().enumerate() {
             let id = t["id"].as_u64().unwrap() as u32;
             spec.threads.push(ThreadSpec { id, ctx_ok: t["ctxOk"].as_bool().unwrap(), name: if t["named"].as_bool().unwrap() { Some(format!("T{}", id)) } else { None },
-                                           ip: thread_ip(t["spot"].as_str().unwrap(), k), sp: 0x10000 + 0x100 * k as u64, stack_base: 0x10000 + 0x100 * k as u64, stack: vec![0u8; 16] });
+                                           ip: thread_ip(t["spot"].as_str().unwrap(), k), sp: 0x10000 + 0x100 * k as u64, stack_base: 0x10000 + 0x100 * k as u64, stack: { let mut v = RA_THREAD.to_le_bytes().to_vec(); v.extend_from_slice(&[0u8; 8]); v } });
         }
         let e = &c["exc"];
         if e["k"] == "some" {
@@ -221,7 +225,7 @@ pub fn from_processor_case(c: &serde_json::Value) -> DumpSpec {
             info[0] = e["kind"].as_u64().unwrap();
             info[1] = addr_val(e["info1"].as_str().unwrap(), 0x1000);
             info[2] = 0xC000_009A;
-            spec.exception = Some(ExcSpec { tid: e["tid"].as_u64().unwrap() as u32, has_ctx: e["hasCtx"].as_bool().unwrap(), ctx_ok: e["ctxOk"].as_bool().unwrap(), ctx_ip: EXC_IP, ctx_sp: 0x10000,
+            spec.exception = Some(ExcSpec { tid: e["tid"].as_u64().unwrap() as u32, has_ctx: e["hasCtx"].as_bool().unwrap(), ctx_ok: e["ctxOk"].as_bool().unwrap(), ctx_ip: EXC_IP, ctx_sp: match e["sp"].as_str().unwrap_or("thread") { "other" => OTHER_REGION, "nowhere" => 0x30000, _ => 0x10000 },
                                             code, flags: 0, address: addr_val(e["addr"].as_str().unwrap(), EXC_IP), nparams: e["np"].as_u64().unwrap() as u32, info, ctx_patch: vec![] });
         }
         if c["bp"]["k"] == "some" {
@@ -231,6 +235,7 @@ pub fn from_processor_case(c: &serde_json::Value) -> DumpSpec {
         spec.misc_pid = match c["misc"].as_str().unwrap() { "pid" | "pid_times" => Some(Some(4242)), "nopid" | "nopid_times" => Some(None), _ => None };
         if matches!(c["misc"].as_str().unwrap(), "pid_times" | "nopid_times") { spec.misc_create_time = Some(1_600_000_000); }
         if c["status"] == "pid" { spec.proc_status = Some("Name:\tx\nPid:\t777\n".into()); }
+        spec.extra_memory.push((OTHER_REGION, { let mut v = RA_OTHER.to_le_bytes().to_vec(); v.extend_from_slice(&[0u8; 8]); v }));
         spec.modules = vec![ModuleSpec { base: 0x400000, size: 0x1000, name: "m1".into() }];
         // u3 covers none of the probed addresses but sorts between u1 and u2
         spec.unloaded = vec![ModuleSpec { base: 0x600000, size: 0x1000, name: "u1".into() }, ModuleSpec { base: 0x600800, size: 0x1000, name: "u2".into() },
